@@ -376,7 +376,7 @@ def judge(env, ctx, h, ts):
 # no daylight rule of a TZ string to years before the epoch (checked), so the
 # three-way comparison has no libc side there.
 YEARS = [1999, 2000, 2023, 2024, 1999, 2000, 2023, 2024, 1971, 1972, 2037,
-         2038, 2099, 2100, 2101, 2104, 2200, 2400]
+         2038, 2099, 2100, 2101, 2104, 2200, 2400, 2004, 2032]
 
 # the first and last representable years, and years before the epoch: the
 # POSIX model alone is the oracle there (a TZ string's rules apply to every
